@@ -180,7 +180,8 @@ def parse_sources():
     else:
         off = None
         problems.append("prime_size binding of the non-strict conversion pass not recognised")
-    res["nonstrict_exempt"] = re.findall(r"matches ! \( cfg \. definition_type \( \) , ([\w |]+) \)", body)
+    m = re.search(r"if matches ! \( cfg \. definition_type \( \) , ([\w |]+) \) \{ return ReportCollection :: new \( \) ; \}", body)
+    res["nonstrict_exempt"] = [x.strip() for x in m.group(1).split("|")] if m else []
     vbody = fn_body(src("nonstrict"), "visit_statement")
     guards = []
     for m in re.finditer(r'if component_name == ("(?:[^"\\]|\\.)*") && args \. len \( \) == (\d+) \{ let arg = & args \[ (\d+) \] ; '
@@ -371,10 +372,28 @@ def printable(s):
     return all(32 <= ord(c) <= 126 for c in s)
 
 
+def safe(fn, fallback):
+    """The extractors must never abort the run: an unreadable source becomes a
+    recorded problem and an `unrecognised` table (the lemmas then fail and the
+    sweep still searches for a failing input)."""
+    try:
+        return fn()
+    except Exception as e:  # noqa: BLE001
+        fb = dict(fallback)
+        fb["problems"] = ["extractor %s failed on the current tree: %r" % (fn.__name__, e)]
+        return fb
+
+
+PS_FALLBACK = {"arrays": [], "dispatch": [], "bn254_exact_match": False, "nonstrict_curve": ("CUnrecognised", ""),
+               "nonstrict_exempt": [], "nonstrict_guards": [("Num2Bits", 1, 0, "CUnrecognised", 0)], "lessthan_guard": ("CUnrecognised", 0),
+               "lessthan_literals": (("", 0), ("", 0), "", ""), "from_str_normaliser": "unrecognised", "from_str_arms": [], "enum_variants": []}
+PD_FALLBACK = {"rows": [], "columns": [], "bits": [], "default_bits": -1, "help_names": [], "default_curve": ""}
+
+
 def gen(ctx):
     binary = common.build_harness("curves")
-    ps = parse_sources()
-    pd = parse_doc()
+    ps = safe(parse_sources, PS_FALLBACK)
+    pd = safe(parse_doc, PD_FALLBACK)
     g = os.path.join(common.COQ, "gen")
     # --- CurveTables.v ---
     t = HEAD % ", ".join(REL[k] for k in ("bn254", "nonstrict", "lessthan", "constants"))
@@ -389,6 +408,8 @@ def gen(ctx):
     t += "Definition bn254_exact_match : bool := %s.\n\n" % ("true" if ps["bn254_exact_match"] else "false")
     t += "(* `if curve() <op> &Curve::<variant> { return }` of find_nonstrict_binary_conversion *)\n"
     t += "Definition nonstrict_curve_guard : cmp * string := (%s, %s).\n\n" % (ps["nonstrict_curve"][0], cstr(ps["nonstrict_curve"][1]))
+    t += "(* `if matches!(cfg.definition_type(), A | B) { return }` *)\n"
+    t += "Definition nonstrict_exempt_definitions : list string := %s.\n\n" % clist([cstr(x) for x in ps["nonstrict_exempt"]])
     t += ("(* visit_statement of the non-strict conversion pass, in source order:\n"
           "   (template literal, args.len(), index of the inspected argument, comparison, offset):\n"
           "   the instantiation is safe iff  value <cmp> prime_size + offset *)\n")
@@ -437,3 +458,858 @@ def gen(ctx):
     common.write_if_changed(os.path.join(g, "CurveNames.v"), t)
     ctx.c11 = {"sources": ps, "doc": pd, "primes": pt, "from_str": dict(zip(uni, res))}
     return ctx.c11
+
+
+# ---------------------------------------------------------------------------
+# generated .circom files and their abstract programs
+# ---------------------------------------------------------------------------
+RULES = {"CS0016": "bn254", "CS0010": "nonstrict", "CS0014": "lessthan"}
+CURVE_ARG = {"Bn254": "BN254", "Bls12_381": "BLS12_381", "Goldilocks": "GOLDILOCKS"}
+
+
+def q(s):
+    return '"' + s.replace('"', '""') + '"'
+
+
+def coq_arg(a):
+    """int -> VField, None -> VUnknown, bool -> VBool, str -> raw Gallina (may mention the curve `c`)."""
+    if a is None:
+        return "VUnknown"
+    if a is True or a is False:
+        return "(VBool %s)" % ("true" if a else "false")
+    if isinstance(a, int):
+        return "(VField (%d)%%Z)" % a
+    return a
+
+
+def coq_acc(acc):
+    return "[" + "; ".join("AIndex (%d)%%Z" % a if isinstance(a, int) else "AField %s" % q(a) for a in acc) + "]"
+
+
+class Tmpl:
+    """One definition = one abstract program of the model."""
+
+    def __init__(self, name, params="", kind="template", deftype="DTemplate"):
+        self.name, self.params, self.kind, self.deftype = name, params, kind, deftype
+        self.body = []          # (circom text, stmt or None)
+        self.stmts = []         # dicts: coq, checks, line (set by render)
+        self.values = {}        # printed value -> check dict
+
+    def raw(self, text):
+        self.body.append((text, None))
+
+    def assign(self, text, tk, var, acc, tname, args, checks=()):
+        """`var[acc] = tname(args)`; args are model argument values."""
+        st = {"coq": "SAssign %s %s %s (RCall (mkCall %s [%s]))" % (tk, q(var), coq_acc(acc), q(tname), "; ".join(coq_arg(a) for a in args)),
+              "checks": list(checks), "text": text.strip()}
+        self.stmts.append(st)
+        self.body.append((text, st))
+
+    def constrain(self, text, var, acc, value):
+        st = {"coq": "SConstrain %s %s %s" % (q(var), coq_acc(acc), q(value)), "checks": [], "text": text.strip()}
+        self.stmts.append(st)
+        self.body.append((text, st))
+
+    def lt_value(self, value, sizes, note=""):
+        """Oracle entry: `value` is an input of LessThan; sizes = bit sizes of the
+        Num2Bits instances it is also fed to (int | None for non-constant |
+        callable(curve variant) -> int)."""
+        self.values[value] = {"sizes": sizes, "note": note}
+
+
+class CFile:
+    def __init__(self, name, pre=()):
+        self.name, self.pre, self.tmpls = name, list(pre), []
+
+    def add(self, t):
+        self.tmpls.append(t)
+        return t
+
+    def render(self):
+        lines = ["pragma circom 2.1.0;"] + self.pre
+        for t in self.tmpls:
+            head = {"template": "template %s(%s) {", "custom": "template custom %s(%s) {", "function": "function %s(%s) {"}[t.kind]
+            lines.append(head % (t.name, t.params))
+            for text, st in t.body:
+                lines.append("  " + text)
+                if st is not None:
+                    st["line"] = len(lines)
+            lines.append("}")
+        return "\n".join(lines) + "\n"
+
+
+def name_universe(doc_rows):
+    """The documented names, Circomlib's spelling of them, and near misses."""
+    base = []
+    for n, _ in doc_rows:
+        for x in (n, circomlib_spelling(n)):
+            if x not in base:
+                base.append(x)
+    uni = []
+
+    def add(x):
+        if x and x not in uni and re.fullmatch(r"[A-Za-z_][A-Za-z0-9_]*", x):
+            uni.append(x)
+    for n in base:
+        add(n)
+    for n in base:
+        for x in (n.lower(), n.upper(), n.swapcase(), n[0].lower() + n[1:], n[0] + n[1:].lower(),
+                  n.replace("_strict", "_Strict"), n.replace("_Strict", "_strict"), n.replace("_strict", "").replace("_Strict", ""),
+                  n + "_strict", n + "_Strict", "X" + n, "_" + n, n + "X", n + "_", n + "2", n[:-1], n[1:], n + n,
+                  n.replace("Verifier", "verifier"), n.replace("MiMC", "Mimc"), n.replace("SMT", "Smt"), n.replace("EdDSA", "Eddsa")):
+            add(x)
+    for x in ("Num2Bits", "Bits2Num", "Bits2Point", "Point2Bits", "EscalarMul", "EscalarMulFix", "SMTHash", "LessThan", "IsZero",
+              "Poseidon2", "PoseidonEx2", "MiMC", "MiMC5", "BabyAdd", "BabyDbl", "BabyCheck", "Sign0", "sign", "SIGN", "Pedersen2",
+              "Num2BitsNeg", "Num2Bits_strict_", "AliasCheck_", "CompConstant2", "SMTVerifierSM", "SMTProcessorSM", "SMTLevIns", "T"):
+        add(x)
+    return uni
+
+
+def sub0(lit, k):
+    """Gallina value of the Circom expression `0 - (lit - k)` in the field of curve c
+    (Model.Field.sub is the proved mirror of the implementation's field subtraction)."""
+    return "(VField (Field.sub 0 (Field.sub (%d) (%d) (prime c)) (prime c)))" % (lit, k)
+
+
+def build_files(ctx, doc_rows):
+    files = []
+    uni = name_universe(doc_rows)
+    # 1. names: one plain instantiation per name
+    f = CFile("names_a")
+    per = 120
+    for part in range(0, len(uni), per):
+        t = f.add(Tmpl("NamesA%d" % (part // per)))
+        for i, n in enumerate(uni[part:part + per]):
+            v = "c%d" % (part + i)
+            t.assign("component %s = %s();" % (v, n), "TComponent", v, [], n, [], checks=[("bn254", n)])
+    files.append(f)
+    # 2. statement shapes
+    f = CFile("names_b", pre=["function fsign(x) {", "  var s = Sign(x);", "  var b = BabyPbk();", "  return s + b;", "}"])
+    t = f.add(Tmpl("NamesB", "n"))
+    t.raw("signal input a;")
+    t.raw("component arr[6];")
+    t.assign("arr[0] = Sign();", "TComponent", "arr", [0], "Sign", [], checks=[("bn254", "Sign")])
+    t.assign("arr[1] = BabyPbk();", "TComponent", "arr", [1], "BabyPbk", [], checks=[("bn254", "BabyPbk")])
+    t.assign("arr[2] = sign();", "TComponent", "arr", [2], "sign", [], checks=[("bn254", "sign")])
+    t.raw("component late;")
+    t.assign("late = Poseidon(2);", "TComponent", "late", [], "Poseidon", [2], checks=[("bn254", "Poseidon")])
+    t.assign("component par = parallel Sign();", "TComponent", "par", [], "Sign", [], checks=[("bn254", "Sign")])
+    t.assign("var loc = Sign();", "TLocal", "loc", [], "Sign", [])
+    t.assign("var loc2 = Num2Bits(254);", "TLocal", "loc2", [], "Num2Bits", [254])
+    t.assign("component withargs = MiMC7(91);", "TComponent", "withargs", [], "MiMC7", [91], checks=[("bn254", "MiMC7")])
+    t.assign("component two = Pedersen(n, 3);", "TComponent", "two", [], "Pedersen", [None, 3], checks=[("bn254", "Pedersen")])
+    t.raw("if (n == 1) {")
+    t.assign("  arr[3] = EscalarMulAny(n);", "TComponent", "arr", [3], "EscalarMulAny", [None], checks=[("bn254", "EscalarMulAny")])
+    t.raw("} else {")
+    t.assign("  arr[4] = Bits2Point_Strict();", "TComponent", "arr", [4], "Bits2Point_Strict", [], checks=[("bn254", "Bits2Point_Strict")])
+    t.raw("}")
+    t.raw("component loop[3];")
+    t.raw("for (var i = 0; i < 3; i++) {")
+    t.assign("  loop[i] = SMTVerifier(i);", "TComponent", "loop", [-1], "SMTVerifier", [None], checks=[("bn254", "SMTVerifier")])
+    t.raw("}")
+    t.raw("component loop2[3];")
+    t.raw("for (var j = 0; j < 3; j++) {")
+    t.assign("  loop2[j] = Num2Bits(j);", "TComponent", "loop2", [-2], "Num2Bits", [None], checks=[("nonstrict", "Num2Bits", None)])
+    t.raw("}")
+    t = f.add(Tmpl("NamesBCustom", "", kind="custom", deftype="DCustomTemplate"))
+    t.raw("signal input a;")
+    t.assign("component cs = Sign();", "TComponent", "cs", [], "Sign", [], checks=[("bn254", "Sign")])
+    t.assign("component cn = Num2Bits(254);", "TComponent", "cn", [], "Num2Bits", [254])
+    files.append(f)
+    # 3. anonymous components (the template must exist for the desugarer)
+    f = CFile("names_anon", pre=["template Sign() { signal input in; signal output sign; sign <== in; }",
+                                 "template BabyPbk() { signal input in; signal output Ax; Ax <== in; }",
+                                 "template IsZero() { signal input in; signal output out; out <== in; }",
+                                 "template Num2Bits(n) { signal input in; signal output out[n]; out[0] <== in; }"])
+    t = f.add(Tmpl("NamesAnon"))
+    t.raw("signal input a;")
+    t.assign("signal o1 <== Sign()(a);", "TComponent", "anon1", [], "Sign", [], checks=[("bn254", "Sign")])
+    t.assign("signal o2 <== BabyPbk()(a);", "TComponent", "anon2", [], "BabyPbk", [], checks=[("bn254", "BabyPbk")])
+    t.assign("signal o3 <== IsZero()(a);", "TComponent", "anon3", [], "IsZero", [], checks=[("bn254", "IsZero")])
+    t.assign("signal o4[254] <== Num2Bits(254)(a);", "TComponent", "anon4", [], "Num2Bits", [254], checks=[("nonstrict", "Num2Bits", 254)])
+    t.assign("signal o5[253] <== Num2Bits(253)(a);", "TComponent", "anon5", [], "Num2Bits", [253], checks=[("nonstrict", "Num2Bits", 253)])
+    files.append(f)
+    # 4./5. Num2Bits(n), Bits2Num(n) for all n in 0..300
+    for tn, fn in (("Num2Bits", "n2b"), ("Bits2Num", "b2n")):
+        f = CFile(fn)
+        top = 301 if ctx.tier == "quick" else 1025
+        for part in range(0, top, 101):
+            t = f.add(Tmpl("%s%d" % (fn.upper(), part)))
+            for n in range(part, min(part + 101, top)):
+                v = "c%d" % n
+                t.assign("component %s = %s(%d);" % (v, tn, n), "TComponent", v, [], tn, [n], checks=[("nonstrict", tn, n)])
+        files.append(f)
+    # 6. sizes: non-constant sizes, computed constants, arities, prime-dependent constants
+    f = CFile("sizes", pre=["function fsize(x) {", "  return x + 1;", "}"])
+    t = f.add(Tmpl("Sizes", "n, m"))
+    t.raw("signal input a;")
+    i = 0
+    for tn in ("Num2Bits", "Bits2Num"):
+        for expr, val in (("n", None), ("n + 1", None), ("m * 0 + 3", None), ("a", None), ("fsize(3)", None), ("n == n", None),
+                          ("1 == 1", True), ("254 > 3", True)):
+            v = "s%d" % i
+            i += 1
+            # a Boolean value is known but is not a FieldElement: treated like a non-constant size
+            t.assign("component %s = %s(%s);" % (v, tn, expr), "TComponent", v, [], tn, [val],
+                     checks=[("nonstrict", tn, None)] if val is None else [])
+        for k in (0, 1, 2, 63, 64, 252, 253, 254, 255, 256, 300):
+            t.raw("var b%d = %d + 1;" % (i, k))
+            v = "s%d" % i
+            t.assign("component %s = %s(b%d - 1);" % (v, tn, i), "TComponent", v, [], tn, [k], checks=[("nonstrict", tn, k)])
+            i += 1
+        for k in (253, 254):
+            v = "s%d" % i
+            i += 1
+            t.assign("component %s = %s(%d * 2 - %d);" % (v, tn, k, k), "TComponent", v, [], tn, [k], checks=[("nonstrict", tn, k)])
+        # the size is a constant only modulo the prime: `0 - (p - k)` is k in the documented field
+        for var in VARIANTS:
+            for k in (252, 253, 254, 255):
+                v = "s%d" % i
+                i += 1
+                t.assign("component %s = %s(0 - (%d - %d));" % (v, tn, DOC_PRIME[var], k), "TComponent", v, [], tn,
+                         [sub0(DOC_PRIME[var], k)],
+                         checks=[("nonstrict", tn, (lambda cv, var=var, k=k: (0 - (DOC_PRIME[var] - k)) % DOC_PRIME[cv]))])
+        v = "s%d" % i
+        i += 1
+        t.assign("component %s = %s(0 - 1);" % (v, tn), "TComponent", v, [], tn, ["(VField (Field.sub 0 1 (prime c)))"],
+                 checks=[("nonstrict", tn, (lambda cv: DOC_PRIME[cv] - 1))])
+        for text, args in (("%s(5, 6)" % tn, [5, 6]), ("%s()" % tn, []), ("%s(n, 5)" % tn, [None, 5])):
+            v = "s%d" % i
+            i += 1
+            t.assign("component %s = %s;" % (v, text), "TComponent", v, [], tn, args)
+    files.append(f)
+    # 7./8. LessThan fed from Num2Bits(k), k in 0..300
+    for fi, (lo, hi) in enumerate(((0, 150), (151, 300))):
+        f = CFile("lt_%d" % fi)
+        for part in range(lo, hi + 1, 76):
+            t = f.add(Tmpl("LT%d" % part))
+            ks = list(range(part, min(part + 76, hi + 1)))
+            for k in ks:
+                t.raw("signal input v%d;" % k)
+            for k in ks:
+                t.assign("component n%d = Num2Bits(%d);" % (k, k), "TComponent", "n%d" % k, [], "Num2Bits", [k], checks=[("nonstrict", "Num2Bits", k)])
+                t.constrain("n%d.in <== v%d;" % (k, k), "n%d" % k, ["in"], "v%d" % k)
+                t.assign("component l%d = LessThan(%d);" % (k, max(k, 1)), "TComponent", "l%d" % k, [], "LessThan", [max(k, 1)])
+                if k % 2:
+                    t.constrain("l%d.in[0] <== v%d;" % (k, k), "l%d" % k, ["in", 0], "v%d" % k)
+                    t.constrain("l%d.in[1] <== v%d;" % (k, k), "l%d" % k, ["in", 1], "v%d" % k)
+                else:
+                    t.constrain("l%d.in[1] <== v%d;" % (k, k), "l%d" % k, ["in", 1], "v%d" % k)
+                t.lt_value("v%d" % k, [k])
+        files.append(f)
+    # 9. LessThan: how inputs are matched to range checks; non-constant and prime-dependent sizes
+    f = CFile("lt_misc", pre=["function fsize(x) {", "  return x + 1;", "}"])
+    t = f.add(Tmpl("LTMisc", "n"))
+    for i in range(40):
+        t.raw("signal input w%d;" % i)
+    t.raw("signal output o;")
+    # no range check at all
+    t.assign("component la = LessThan(8);", "TComponent", "la", [], "LessThan", [8])
+    t.constrain("la.in[0] <== w0;", "la", ["in", 0], "w0")
+    t.constrain("la.in[1] <== w1;", "la", ["in", 1], "w1")
+    t.lt_value("w0", [])
+    # range check after the comparison, component arrays
+    t.raw("component na[4];")
+    t.assign("na[0] = Num2Bits(32);", "TComponent", "na", [0], "Num2Bits", [32])
+    t.constrain("na[0].in <== w1;", "na", [0, "in"], "w1")
+    t.lt_value("w1", [32])
+    t.raw("component lb[2];")
+    t.assign("lb[0] = LessThan(n);", "TComponent", "lb", [0], "LessThan", [None])
+    t.assign("lb[1] = LessThan(n, 3);", "TComponent", "lb", [1], "LessThan", [None, 3])
+    # non-constant sizes
+    t.assign("na[1] = Num2Bits(n);", "TComponent", "na", [1], "Num2Bits", [None])
+    t.assign("na[2] = Num2Bits(fsize(3));", "TComponent", "na", [2], "Num2Bits", [None])
+    t.assign("na[3] = Num2Bits(1 == 1);", "TComponent", "na", [3], "Num2Bits", [True])
+    t.constrain("na[1].in <== w2;", "na", [1, "in"], "w2")
+    t.constrain("na[2].in <== w3;", "na", [2, "in"], "w3")
+    t.constrain("na[3].in <== w4;", "na", [3, "in"], "w4")
+    t.constrain("lb[0].in[0] <== w2;", "lb", [0, "in", 0], "w2")
+    t.constrain("lb[0].in[1] <== w3;", "lb", [0, "in", 1], "w3")
+    t.lt_value("w2", [None])
+    t.lt_value("w3", [None])
+    t.assign("component lc = LessThan(8);", "TComponent", "lc", [], "LessThan", [8])
+    t.constrain("lc.in[0] <== w4;", "lc", ["in", 0], "w4")
+    t.lt_value("w4", [None], note="Boolean-valued size")
+    # the two-argument LessThan is not Circomlib's: its inputs are not tracked (model only)
+    t.constrain("lb[1].in[0] <== w5;", "lb", [1, "in", 0], "w5")
+    # several range checks on one value: one good one suffices
+    t.assign("component nb = Num2Bits(300);", "TComponent", "nb", [], "Num2Bits", [300])
+    t.assign("component nc = Num2Bits(20);", "TComponent", "nc", [], "Num2Bits", [20])
+    t.assign("component nd = Num2Bits(n);", "TComponent", "nd", [], "Num2Bits", [None])
+    t.constrain("nb.in <== w6;", "nb", ["in"], "w6")
+    t.constrain("nc.in <== w6;", "nc", ["in"], "w6")
+    t.constrain("nd.in <== w6;", "nd", ["in"], "w6")
+    t.constrain("lc.in[1] <== w6;", "lc", ["in", 1], "w6")
+    t.lt_value("w6", [300, 20, None])
+    t.assign("component ne = Num2Bits(300);", "TComponent", "ne", [], "Num2Bits", [300])
+    t.assign("component nf = Num2Bits(n);", "TComponent", "nf", [], "Num2Bits", [None])
+    t.constrain("ne.in <== w7;", "ne", ["in"], "w7")
+    t.constrain("nf.in <== w7;", "nf", ["in"], "w7")
+    t.assign("component ld = LessThan(8);", "TComponent", "ld", [], "LessThan", [8])
+    t.constrain("ld.in[0] <== w7;", "ld", ["in", 0], "w7")
+    t.lt_value("w7", [300, None])
+    # compound expressions are matched syntactically
+    t.assign("component ng = Num2Bits(20);", "TComponent", "ng", [], "Num2Bits", [20])
+    t.constrain("ng.in <== w8 + 1;", "ng", ["in"], "(w8 + 1)")
+    t.constrain("ld.in[1] <== w8 + 1;", "ld", ["in", 1], "(w8 + 1)")
+    t.lt_value("(w8 + 1)", [20])
+    t.assign("component nh = Num2Bits(20);", "TComponent", "nh", [], "Num2Bits", [20])
+    t.constrain("nh.in <== 1 + w9;", "nh", ["in"], "(1 + w9)")
+    t.assign("component le = LessThan(8);", "TComponent", "le", [], "LessThan", [8])
+    t.constrain("le.in[0] <== w9 + 1;", "le", ["in", 0], "(w9 + 1)")    # not matched: conservative (model only)
+    # wrong signal names, other templates
+    t.assign("component ni = Num2Bits(20);", "TComponent", "ni", [], "Num2Bits", [20])
+    t.constrain("ni.foo <== w10;", "ni", ["foo"], "w10")
+    t.constrain("le.in[1] <== w10;", "le", ["in", 1], "w10")
+    t.lt_value("w10", [])
+    t.assign("component nj = Bits2Num(20);", "TComponent", "nj", [], "Bits2Num", [20])
+    t.constrain("nj.in <== w11;", "nj", ["in"], "w11")
+    t.assign("component nk = Num2Bits_strict();", "TComponent", "nk", [], "Num2Bits_strict", [])
+    t.constrain("nk.in <== w11;", "nk", ["in"], "w11")
+    t.assign("component lf = LessThan(8);", "TComponent", "lf", [], "LessThan", [8])
+    t.constrain("lf.in[0] <== w11;", "lf", ["in", 0], "w11")
+    t.lt_value("w11", [])
+    t.assign("component lg = LessThan(8);", "TComponent", "lg", [], "LessThan", [8])
+    t.constrain("lg.inp[0] <== w12;", "lg", ["inp", 0], "w12")
+    t.constrain("lg.in <== w13;", "lg", ["in"], "w13")
+    # a component variable re-used (HashMap::insert overwrites) - model only
+    t.assign("component lh = LessEqThan(8);", "TComponent", "lh", [], "LessEqThan", [8])
+    t.constrain("lh.in[0] <== w14;", "lh", ["in", 0], "w14")
+    # sizes that are constants only modulo the prime; boundary sizes per curve
+    j = 15
+    for var in VARIANTS:
+        b = DOC_PRIME[var].bit_length()
+        for k in (b - 3, b - 2, b - 1, b):
+            for form in ("lit", "mod"):
+                w = "w%d" % j
+                cn, cl = "np%d" % j, "lp%d" % j
+                j += 1
+                if form == "lit":
+                    t.raw("var bb%d = %d + 1;" % (j, k))
+                    t.assign("component %s = Num2Bits(bb%d - 1);" % (cn, j), "TComponent", cn, [], "Num2Bits", [k])
+                    sz = k
+                else:
+                    t.assign("component %s = Num2Bits(0 - (%d - %d));" % (cn, DOC_PRIME[var], k), "TComponent", cn, [], "Num2Bits",
+                             [sub0(DOC_PRIME[var], k)])
+                    sz = (lambda cv, var=var, k=k: (0 - (DOC_PRIME[var] - k)) % DOC_PRIME[cv])
+                t.constrain("%s.in <== %s;" % (cn, w), cn, ["in"], w)
+                t.assign("component %s = LessThan(8);" % cl, "TComponent", cl, [], "LessThan", [8])
+                t.constrain("%s.in[0] <== %s;" % (cl, w), cl, ["in", 0], w)
+                t.lt_value(w, [sz])
+    assert j <= 40
+    t.raw("o <== w0;")
+    files.append(f)
+    # 10.. seeded random mixtures (names, sizes, LessThan inputs with several range checks)
+    nrand = 2 if ctx.tier == "quick" else 12
+    top = 300 if ctx.tier == "quick" else 1200
+    rng = ctx.rng
+    for fi in range(nrand):
+        f = CFile("random_%d" % fi)
+        for ti in range(2):
+            t = f.add(Tmpl("R%d_%d" % (fi, ti), "n"))
+            nsig = 40
+            for i in range(nsig):
+                t.raw("signal input r%d_%d;" % (ti, i))
+            checks_of = {}
+            for i in range(90):
+                kind = rng.choice(["name", "name", "n2b", "b2n", "lt", "lt", "lt"])
+                v = "q%d" % i
+                if kind == "name":
+                    n = rng.choice(uni)
+                    t.assign("component %s = %s();" % (v, n), "TComponent", v, [], n, [], checks=[("bn254", n)])
+                elif kind in ("n2b", "b2n"):
+                    tn = "Num2Bits" if kind == "n2b" else "Bits2Num"
+                    n = rng.choice([rng.randrange(0, top + 1), rng.choice([252, 253, 254, 255, 256]), None])
+                    t.assign("component %s = %s(%s);" % (v, tn, "n" if n is None else n), "TComponent", v, [], tn, [n],
+                             checks=[("nonstrict", tn, n)])
+                else:
+                    w = "r%d_%d" % (ti, rng.randrange(nsig))
+                    if rng.random() < 0.5:
+                        b = DOC_PRIME[rng.choice(VARIANTS)].bit_length()
+                        k = rng.choice([rng.randrange(0, top + 1), b - 3, b - 2, b - 1, b, None])
+                        t.assign("component %s = Num2Bits(%s);" % (v, "n" if k is None else k), "TComponent", v, [], "Num2Bits", [k],
+                                 checks=[("nonstrict", "Num2Bits", k)])
+                        t.constrain("%s.in <== %s;" % (v, w), v, ["in"], w)
+                        checks_of.setdefault(w, {"lt": False, "sizes": []})["sizes"].append(k)
+                    else:
+                        t.assign("component %s = LessThan(8);" % v, "TComponent", v, [], "LessThan", [8])
+                        idx = rng.randrange(2)
+                        t.constrain("%s.in[%d] <== %s;" % (v, idx, w), v, ["in", idx], w)
+                        checks_of.setdefault(w, {"lt": False, "sizes": []})["lt"] = True
+            for w, inf in checks_of.items():
+                if inf["lt"]:
+                    t.lt_value(w, inf["sizes"])
+        files.append(f)
+    return files
+
+
+# ---------------------------------------------------------------------------
+# running the implementation (CLI) and the model (vm_compute)
+# ---------------------------------------------------------------------------
+def run_cli(cli, path, curve_arg, sarif):
+    """Returns (rc, {rule: [(line, label)]}, stderr)."""
+    try:
+        os.remove(sarif)
+    except OSError:
+        pass
+    cmd = [cli, "--curve", curve_arg, "--sarif-file", sarif, path]
+    rc, out, err = common.sh(cmd, timeout=300)
+    res = {"CS0016": [], "CS0010": [], "CS0014": [], "errors": []}
+    if os.path.exists(sarif):
+        try:
+            d = json.load(open(sarif))
+            for r in d["runs"][0]["results"]:
+                rid = r.get("ruleId")
+                loc = (r.get("locations") or [{}])[0]
+                line = loc.get("physicalLocation", {}).get("region", {}).get("startLine")
+                label = loc.get("message", {}).get("text", "")
+                if rid in RULES:
+                    res[rid].append((line, label, r["message"]["text"]))
+                elif r.get("level") == "error":
+                    res["errors"].append((rid, line, r["message"]["text"]))
+        except (ValueError, KeyError, IndexError) as e:
+            res["errors"].append(("sarif", None, repr(e)))
+    return rc, res, err
+
+
+def model_eval(ctx, files):
+    """Evaluates the three pass models on every template under every curve by
+    vm_compute (one cases file per generated .circom file, in parallel)."""
+    rc, out = common.coq_make(["model/Curves.vo", "model/Field.vo"], timeout=900)
+    if rc != 0:
+        raise common.BuildError("coq build of Model.Curves failed", out[-3000:])
+
+    def one(f):
+        v = ["From Coq Require Import ZArith List String.", "Require Import Model.Base Model.Field Model.Curves.",
+             "Import ListNotations.", "Open Scope string_scope.", "Open Scope list_scope.", ""]
+        order = []
+        for ti, t in enumerate(f.tmpls):
+            v.append("Definition p%d (c : curve) : list stmt := [\n  %s\n]." % (ti, ";\n  ".join(s["coq"] for s in t.stmts)))
+            for cv in VARIANTS:
+                v.append("Eval vm_compute in (List.map Z.of_nat (bn254_reports %s (p%d %s)))." % (cv, ti, cv))
+                v.append("Eval vm_compute in (omap (List.map Z.of_nat) (nonstrict_reports %s %s (p%d %s)))." % (cv, t.deftype, ti, cv))
+                v.append("Eval vm_compute in (lessthan_reports %s (p%d %s))." % (cv, ti, cv))
+                order.append((ti, cv))
+        path = os.path.join(ctx.work, "cases_%s.v" % f.name)
+        open(path, "w").write("\n".join(v) + "\n")
+        rc, out, err = common.sh(["coqc"] + common.coq_flags() + ["-o", path + "o", path], cwd=common.COQ, timeout=600)
+        if rc != 0:
+            raise common.BuildError("model evaluation %s failed" % path, (out + err)[-3000:])
+        chunks = re.split(r"(?m)^\s*= ", out)[1:]
+        chunks = [re.split(r"(?m)^\s*: ", c)[0] for c in chunks]
+        if len(chunks) != 3 * len(order):
+            raise common.BuildError("model evaluation %s: %d results for %d queries" % (path, len(chunks), 3 * len(order)), out[-2000:])
+        res = {}
+        for i, (ti, cv) in enumerate(order):
+            a, b, c = chunks[3 * i:3 * i + 3]
+            r16 = [int(x) for x in re.findall(r"-?\d+", a)]
+            r10 = [int(x) for x in re.findall(r"-?\d+", b)] if b.strip().startswith("Ok") else b.strip().split()[0]
+            r14 = [m.replace('""', '"') for m in re.findall(r'"((?:[^"]|"")*)"', c)] if c.strip().startswith("Ok") else c.strip().split()[0]
+            res[(ti, cv)] = (r16, r10, r14)
+        return res
+    with concurrent.futures.ThreadPoolExecutor(max_workers=common.NPROC) as ex:
+        outs = list(ex.map(one, files))
+    return dict(zip([f.name for f in files], outs))
+
+
+# ---------------------------------------------------------------------------
+# oracle: the documented semantics
+# ---------------------------------------------------------------------------
+def doc_marks(doc, cv, name):
+    if cv not in doc["columns"]:
+        return False
+    col = doc["columns"].index(cv)
+    return any(circomlib_spelling(n) == name and col < len(marks) and marks[col] for n, marks in doc["rows"])
+
+
+def size_value(sz, cv):
+    return sz(cv) if callable(sz) else sz
+
+
+def nonstrict_expected(n):
+    """Under the default curve: flagged unless n is a constant smaller than 254."""
+    return not (isinstance(n, int) and not isinstance(n, bool) and 0 <= n < 254)
+
+
+def lessthan_expected(sizes, cv):
+    """Reported unless some Num2Bits(k) with constant k and 2^k - 1 <= p/2 checks the value."""
+    p = DOC_PRIME[cv]
+    for sz in sizes:
+        k = size_value(sz, cv)
+        if isinstance(k, int) and not isinstance(k, bool) and k >= 0 and (k < 4096 and (1 << k) - 1 <= p // 2):
+            return False
+    return True
+
+
+PROBE = """pragma circom 2.1.0;
+template Probe() {
+  component a = Sign();
+  component b = BabyPbk();
+  component c = Num2Bits(254);
+}
+"""
+
+
+def cli_signature(cli, path, spelling, sarif):
+    try:
+        os.remove(sarif)
+    except OSError:
+        pass
+    rc, out, err = common.sh([cli, "--curve", spelling, "--sarif-file", sarif, path], timeout=120)
+    if rc == 2 and "invalid value" in err:
+        return "reject"
+    if rc not in (0, 1):
+        return "rc=%d %s" % (rc, err.strip()[:200])
+    sig = []
+    try:
+        d = json.load(open(sarif))
+        for r in d["runs"][0]["results"]:
+            if r.get("ruleId") in RULES:
+                sig.append("%s@%s" % (r["ruleId"], r["locations"][0]["physicalLocation"]["region"]["startLine"]))
+    except (OSError, ValueError, KeyError, IndexError):
+        return "rc=%d without sarif %s" % (rc, (out + err).strip()[:200])
+    return "sig:" + ",".join(sorted(sig))
+
+
+def sweep_curve_names(ctx, cli, binary):
+    """--curve <spelling> over the whole universe, through the real CLI."""
+    d = os.path.join(ctx.work, "names")
+    os.makedirs(d, exist_ok=True)
+    probe = os.path.join(d, "probe.circom")
+    open(probe, "w").write(PROBE)
+    canon_sig = {}
+    for v in VARIANTS:
+        canon_sig[v] = cli_signature(cli, probe, CANON[v], os.path.join(d, "canon.sarif"))
+    problems = []
+    if len(set(canon_sig.values())) != 3 or any(not s.startswith("sig:") for s in canon_sig.values()):
+        problems.append("the three canonical curve names are not accepted with three distinguishable behaviours: %r" % canon_sig)
+    by_sig = {}
+    for v, sg in canon_sig.items():
+        by_sig.setdefault(sg, []).append(v)
+    uni = spelling_universe() + [s for s in NON_ASCII if s not in spelling_universe()]
+
+    def one(args):
+        i, s = args
+        return cli_signature(cli, probe, s, os.path.join(d, "n%d.sarif" % (i % (4 * common.NPROC))))
+    # sarif scratch files are shared modulo 4*NPROC: run in strides so that no two live runs share one
+    obs = [None] * len(uni)
+    stride = 4 * common.NPROC
+    with concurrent.futures.ThreadPoolExecutor(max_workers=common.NPROC) as ex:
+        for base in range(0, len(uni), stride):
+            chunk = list(enumerate(uni[base:base + stride], start=base))
+            for (i, _), r in zip(chunk, ex.map(one, chunk)):
+                obs[i] = r
+    harness = exec_from_str(binary, uni)
+    failing, notes, disagree = [], [], []
+    accepted = 0
+    for s, o, h in zip(uni, obs, harness):
+        # variant | "reject" | raw text; if two curves behave alike on the probe (only
+        # under a mutated table) the spelling is attributed to the one from_str names
+        cands = by_sig.get(o, [o])
+        seen = h if h in cands else cands[0]
+        if seen != h:
+            disagree.append({"spelling": s, "cli": seen, "from_str": h})
+        if printable(s) or s.isascii():
+            want = next((v for v in VARIANTS if s.upper() == CANON[v]), "reject")
+            if seen != want:
+                failing.append({"input": {"kind": "curve-name", "spelling": s}, "impl": seen, "spec": want})
+            if want != "reject":
+                accepted += 1
+        else:
+            uni_want = next((v for v in VARIANTS if s.upper() == CANON[v]), "reject")
+            if seen != "reject" or uni_want != "reject":
+                notes.append({"spelling": s, "cli": seen, "unicode_uppercase_says": uni_want})
+    return {"count": len(uni), "failing": failing, "notes": notes, "disagree": disagree, "problems": problems,
+            "accepted": accepted, "canon_sig": canon_sig}
+
+
+# ---------------------------------------------------------------------------
+# the check
+# ---------------------------------------------------------------------------
+def check_file(f, text, cv, impl, model, doc):
+    """Compares one CLI run with the model and with the documented semantics.
+    Returns (disagreements, failing inputs, evaluations, nontrivial keys)."""
+    dis, fail, nontriv = [], [], set()
+    evals = 0
+    rc, res, err = impl
+    if res["errors"]:
+        dis.append({"file": f.name, "curve": cv, "what": "the tool reported errors on a generated file", "errors": res["errors"][:3]})
+    from collections import Counter
+    i16 = Counter(l for l, _, _ in res["CS0016"])
+    i10 = Counter(l for l, _, _ in res["CS0010"])
+    i14 = Counter()
+    for l, label, _ in res["CS0014"]:
+        m = re.match(r"`(.*)` needs to be constrained", label)
+        i14[m.group(1) if m else "?" + label] += 1
+    m16, m10, m14 = Counter(), Counter(), Counter()
+    for ti, t in enumerate(f.tmpls):
+        r16, r10, r14 = model[(ti, cv)]
+        for idx in r16:
+            m16[t.stmts[idx]["line"]] += 1
+        if isinstance(r10, list):
+            for idx, n in enumerate(r10):
+                if n:
+                    m10[t.stmts[idx]["line"]] += n
+        else:
+            dis.append({"file": f.name, "curve": cv, "what": "model of the non-strict pass: " + str(r10)})
+        if isinstance(r14, list):
+            for v in r14:
+                m14[v] += 1
+        else:
+            dis.append({"file": f.name, "curve": cv, "what": "model of the less-than pass: " + str(r14)})
+    for rule, a, b in (("CS0016", i16, m16), ("CS0010", i10, m10), ("CS0014", i14, m14)):
+        if a != b:
+            keys = sorted(set(a) | set(b), key=str)
+            diff = [(k, a.get(k, 0), b.get(k, 0)) for k in keys if a.get(k, 0) != b.get(k, 0)]
+            lines = text.splitlines()
+            dis.append({"file": f.name, "curve": cv, "rule": rule,
+                        "differences(subject, impl, model)": [(k, x, y, lines[k - 1].strip() if isinstance(k, int) and 0 < k <= len(lines) else "") for k, x, y in diff[:6]],
+                        "count": len(diff)})
+    # the documented semantics
+    for t in f.tmpls:
+        for st in t.stmts:
+            for chk in st["checks"]:
+                evals += 1
+                if chk[0] == "bn254":
+                    want = doc_marks(doc, cv, chk[1])
+                    got = i16.get(st["line"], 0)
+                    named = all(("`%s`" % chk[1]) in msg for l, _, msg in res["CS0016"] if l == st["line"])
+                    if (got == 1) != want or got > 1 or not named:
+                        fail.append({"input": {"kind": "circom", "file": f.name, "curve": cv, "line": st["line"], "statement": st["text"], "rule": "CS0016", "subject": chk[1]},
+                                     "impl": "%d report(s)" % got, "spec": "flagged" if want else "not flagged (documentation table, Circomlib spelling)"})
+                    if want or chk[1].lower() in [circomlib_spelling(n).lower() for n, _ in doc["rows"]]:
+                        nontriv.add(("CS0016", cv, chk[1]))
+                elif chk[0] == "nonstrict":
+                    if cv != "Bn254":
+                        continue
+                    n = size_value(chk[2], cv)
+                    want = nonstrict_expected(n)
+                    got = i10.get(st["line"], 0)
+                    if (got == 1) != want or got > 1:
+                        fail.append({"input": {"kind": "circom", "file": f.name, "curve": cv, "line": st["line"], "statement": st["text"], "rule": "CS0010", "subject": "%s(%s)" % (chk[1], n)},
+                                     "impl": "%d report(s)" % got,
+                                     "spec": ("flagged" if want else "not flagged") + ": size %s, documented rule n < 254" % ("non-constant" if n is None else n)})
+                    if n is None or 250 <= n <= 258 or callable(chk[2]):
+                        nontriv.add(("CS0010", cv, chk[1], st["text"]))
+        for v, info in t.values.items():
+            evals += 1
+            want = lessthan_expected(info["sizes"], cv)
+            got = i14.get(v, 0)
+            if (got == 1) != want or got > 1:
+                fail.append({"input": {"kind": "circom", "file": f.name, "curve": cv, "value": v, "rule": "CS0014",
+                                       "sizes": [("non-constant" if size_value(s, cv) is None else size_value(s, cv)) for s in info["sizes"]]},
+                             "impl": "%d report(s)" % got,
+                             "spec": ("reported" if want else "range-checked") + ": 2^k - 1 <= p/2 for the documented prime of %s" % cv})
+            b = DOC_PRIME[cv].bit_length()
+            ks = [size_value(s, cv) for s in info["sizes"]]
+            if any(k is None or callable(s) or abs(k - b) <= 3 for k, s in zip(ks, info["sizes"])) or len(ks) != 1:
+                nontriv.add(("CS0014", cv, v))
+    return dis, fail, evals, nontriv
+
+
+def corpus_cases():
+    d = os.path.join(common.VERIF, "corpus", P)
+    out = []
+    if os.path.isdir(d):
+        for fn in sorted(os.listdir(d)):
+            if fn.endswith(".json"):
+                c = json.load(open(os.path.join(d, fn)))
+                c["_file"] = fn
+                out.append(c)
+    return out
+
+
+def run_corpus_case(ctx, cli, binary, c):
+    """A corpus case carries its own expectation (documented semantics at the
+    time it was recorded).  Returns None or a failing-input record."""
+    if c["kind"] == "curve-name":
+        d = os.path.join(ctx.work, "names")
+        os.makedirs(d, exist_ok=True)
+        probe = os.path.join(d, "probe.circom")
+        open(probe, "w").write(PROBE)
+        canon = {}
+        for v in VARIANTS:
+            canon.setdefault(cli_signature(cli, probe, CANON[v], os.path.join(d, "corpus.sarif")), []).append(v)
+        o = cli_signature(cli, probe, c["spelling"], os.path.join(d, "corpus.sarif"))
+        cands = canon.get(o, [o])
+        seen = c["expect"] if c["expect"] in cands else cands[0]
+        h = exec_from_str(binary, [c["spelling"]])[0]
+        if seen != c["expect"] or h != c["expect"]:
+            return {"input": {"kind": "curve-name", "spelling": c["spelling"]}, "impl": "cli: %s, from_str: %s" % (seen, h), "spec": c["expect"]}
+        return None
+    d = os.path.join(ctx.work, "corpus")
+    os.makedirs(d, exist_ok=True)
+    path = os.path.join(d, c["_file"].replace(".json", ".circom"))
+    open(path, "w").write(c["source"])
+    rc, res, err = run_cli(cli, path, c["curve"], path + ".sarif")
+    got = {"CS0016": sorted(l for l, _, _ in res["CS0016"]), "CS0010": sorted(l for l, _, _ in res["CS0010"]),
+           "CS0014": sorted(re.sub(r"^`(.*)` needs.*$", r"\1", lab) for _, lab, _ in res["CS0014"])}
+    want = {k: sorted(c["expect"].get(k, [])) for k in got}
+    if got != want:
+        return {"input": {"kind": "circom", "curve": c["curve"], "source": c["source"], "corpus": c["_file"]}, "impl": got, "spec": want}
+    return None
+
+
+def run(ctx, proofs):
+    info = getattr(ctx, "c11", None) or gen(ctx)
+    doc = info["doc"]
+    cli = common.build_cli()
+    binary = common.build_harness("curves")
+    disagreements, failing = [], []
+    for pr in info["sources"]["problems"] + doc["problems"]:
+        disagreements.append({"what": "source no longer has the shape the table extractor reads: " + pr})
+    # executed constants vs the documented fields
+    for v in VARIANTS:
+        got = info["primes"].get(v, {})
+        if got.get("prime") != DOC_PRIME[v] or got.get("size") != DOC_PRIME[v].bit_length() or got.get("stored") != v:
+            disagreements.append({"what": "UsefulConstants::new(%s) = %r, documented prime %d (%d bits)" % (v, got, DOC_PRIME[v], DOC_PRIME[v].bit_length())})
+    # 0. regression corpus first
+    ncorpus = 0
+    for c in corpus_cases():
+        ncorpus += 1
+        r = run_corpus_case(ctx, cli, binary, c)
+        if r:
+            failing.append(r)
+    # 1. generated files through the real binary, under every curve
+    files = build_files(ctx, doc["rows"])
+    d = os.path.join(ctx.work, "circom")
+    os.makedirs(d, exist_ok=True)
+    texts = {}
+    for f in files:
+        texts[f.name] = f.render()
+        open(os.path.join(d, f.name + ".circom"), "w").write(texts[f.name])
+    jobs = [(f, cv) for f in files for cv in VARIANTS]
+
+    def one(job):
+        f, cv = job
+        # canonical spelling; mixed-case spellings are exercised by the curve-name sweep
+        return run_cli(cli, os.path.join(d, f.name + ".circom"), CURVE_ARG[cv], os.path.join(d, "%s_%s.sarif" % (f.name, cv)))
+    with concurrent.futures.ThreadPoolExecutor(max_workers=common.NPROC) as ex:
+        impl = dict(zip([(f.name, cv) for f, cv in jobs], ex.map(one, jobs)))
+    model = model_eval(ctx, files)
+    evaluations, nontrivial = 0, set()
+    instantiations = sum(len(t.stmts) for f in files for t in f.tmpls)
+    for f, cv in jobs:
+        dis, fail, ev, nt = check_file(f, texts[f.name], cv, impl[(f.name, cv)], model[f.name], doc)
+        for x in fail:
+            x["input"]["source_path"] = os.path.join(d, f.name + ".circom")
+        disagreements += dis
+        failing += fail
+        evaluations += ev
+        nontrivial |= nt
+    # 2. curve names through --curve
+    names = sweep_curve_names(ctx, cli, binary)
+    evaluations += names["count"]
+    failing += names["failing"]
+    for x in names["disagree"]:
+        disagreements.append({"what": "--curve and Curve::from_str disagree", **x})
+    for pr in names["problems"]:
+        disagreements.append({"what": pr})
+    nontrivial |= {("curve-name", i) for i in range(names["accepted"])}
+    # verdict
+    seen = set()
+    for fcase in failing:
+        fi = fcase["input"]
+        subject = fi.get("subject") or fi.get("value") or fi.get("spelling") or fi.get("corpus") or fi.get("statement")
+        key = (fi.get("kind"), fi.get("rule"), str(fi.get("curve")), str(subject))
+        if key in seen or len(seen) >= 4:
+            continue
+        seen.add(key)
+        inp = dict(fcase["input"])
+        if inp.get("kind") == "circom" and "source" not in inp and inp.get("file") in texts:
+            inp["source"] = texts[inp["file"]]
+        ctx.violation("curve-dependent check deviates from the documented semantics: %s -> %s, documented: %s"
+                      % (json.dumps({k: v for k, v in fcase["input"].items() if k not in ("source", "source_path")}, default=str), fcase["impl"], fcase["spec"]),
+                      {"input": inp, "impl": fcase["impl"], "spec": fcase["spec"]})
+    if not failing:
+        if disagreements:
+            ctx.violation("correspondence Model.Curves / regenerated tables vs the implementation broken (%d, first: %s); the documented "
+                          "semantics held on every explored input" % (len(disagreements), json.dumps(disagreements[0], default=str)[:600]),
+                          {"broken": "correspondence curves (Model.Curves over coq/gen tables)", "first": disagreements[0], "count": len(disagreements)},
+                          no_input=True)
+        elif proofs["failures"]:
+            ctx.violation("proof obligations of C11 no longer check against the regenerated tables: " + "; ".join(proofs["failures"])[:600],
+                          {"broken": "props/C11.v", "failures": proofs["failures"]}, no_input=True)
+    def sample(fname, cv, want_text):
+        f = next((x for x in files if x.name == fname), None)
+        if f is None:
+            return None
+        rc, res, err = impl[(fname, cv)]
+        for t in f.tmpls:
+            for st in t.stmts:
+                if st["text"] == want_text:
+                    got = [r for r in ("CS0016", "CS0010") if any(l == st["line"] for l, _, _ in res[r])]
+                    return {"file": fname + ".circom", "line": st["line"], "curve": cv, "statement": st["text"], "impl_reports": got}
+        return None
+
+    def sample_lt(fname, cv, value):
+        rc, res, err = impl[(fname, cv)]
+        return {"file": fname + ".circom", "curve": cv, "lessthan_input": value,
+                "impl_reports": ["CS0014"] if any(lab.startswith("`%s` needs" % value) for _, lab, _ in res["CS0014"]) else []}
+    actual_samples = [x for x in (
+        sample("names_a", "Bls12_381", "component c%d = Sign();" % name_universe(doc["rows"]).index("Sign")) if "Sign" in name_universe(doc["rows"]) else None,
+        sample("n2b", "Bn254", "component c253 = Num2Bits(253);"), sample("n2b", "Bn254", "component c254 = Num2Bits(254);"),
+        sample_lt("lt_0", "Goldilocks", "v62"), sample_lt("lt_0", "Goldilocks", "v63"),
+        sample_lt("lt_1", "Bls12_381", "v253"), sample_lt("lt_1", "Bls12_381", "v254")) if x]
+    ctx.coverage.update({
+        "evaluations": evaluations,
+        "distinct_nontrivial": len(nontrivial),
+        "rule": "one evaluation = one (curve, checked instantiation / LessThan input / --curve spelling) compared with the documented "
+                "semantics; distinct-nontrivial counts (rule, curve, subject) where the subject is a documented table name or a "
+                "case variant of one (CS0016), a size within 250..258, non-constant or prime-dependent (CS0010), a bit size within 3 "
+                "of the prime's bit length, non-constant, prime-dependent or multiply checked (CS0014), plus the accepted curve spellings",
+        "exhaustive": True,
+        "exhaustive_part": "all 26 documented names x 3 curves; Num2Bits(n), Bits2Num(n), LessThan fed from Num2Bits(k) for all n,k in 0..300 x 3 curves; "
+                           "all %d case variants of the three curve names" % sum(len(case_variants(CANON[v])) for v in VARIANTS),
+        "files": len(files), "cli_runs": len(jobs) + names["count"], "instantiation_statements": instantiations,
+        "template_name_universe": len(name_universe(doc["rows"])),
+        "curve_spellings": names["count"], "curve_spellings_accepted_ascii": names["accepted"],
+        "non_ascii_curve_spellings_noted": names["notes"],
+        "corpus_cases": ncorpus,
+        "disagreements_model_vs_impl": len(disagreements),
+        "spec_failures": len(failing),
+        "samples": (failing[:2] or disagreements[:2]) or actual_samples,
+        "executed_primes": {v: str(info["primes"][v]["prime"]) for v in VARIANTS if v in info["primes"]},
+        "open_statements": [],
+    })
+    ctx.assumptions += [
+        "the abstraction of a generated .circom statement to the model's statement (type knowledge, call name, argument value knowledge, access "
+        "path, printed right-hand side) is written by the generator in lib/props/C11.py; it is checked by the end-to-end comparison, not proved",
+        "value knowledge of size arguments comes from the tool's constant propagation (property C06); here it is exercised with literals, "
+        "local-variable arithmetic and constants that are only determined modulo the prime",
+        "Circomlib's spelling of the documented names (Bits2Point_Strict, Point2Bits_Strict) is a fixed part of the specification (Spec.CurvesSpec.circomlib_spelling)",
+        "non-ASCII --curve spellings are compared with Unicode upper-casing by test only; those accepted (e.g. `blſ12_381`) are noted, not violations",
+        "the three documented primes are the constants of Spec.CurvesSpec (BN254 and BLS12-381 scalar fields in hexadecimal, Goldilocks as 2^64 - 2^32 + 1)",
+    ]
+
+
+def replay(ctx, rep):
+    cli = common.build_cli()
+    binary = common.build_harness("curves")
+    inp = rep.get("input")
+    if not inp:
+        print("replay names a broken obligation or correspondence, not an input:", rep.get("broken"))
+        return 1
+    if inp.get("kind") == "curve-name":
+        r = run_corpus_case(ctx, cli, binary, {"kind": "curve-name", "spelling": inp["spelling"], "expect": rep.get("spec")})
+        print("spelling %r: documented %s; %s" % (inp["spelling"], rep.get("spec"), "still deviates: %s" % r["impl"] if r else "now as documented"))
+        return 1 if r else 0
+    d = os.path.join(ctx.work, "replay")
+    os.makedirs(d, exist_ok=True)
+    path = os.path.join(d, "replay.circom")
+    open(path, "w").write(inp["source"])
+    curve = CURVE_ARG.get(inp["curve"], inp["curve"])
+    rc, res, err = run_cli(cli, path, curve, path + ".sarif")
+    rule = inp.get("rule")
+    if rule in ("CS0016", "CS0010"):
+        got = "%d report(s)" % sum(1 for l, _, _ in res[rule] if l == inp.get("line"))
+    elif rule == "CS0014":
+        got = "%d report(s)" % sum(1 for _, lab, _ in res["CS0014"] if lab.startswith("`%s` needs" % inp.get("value")))
+    else:
+        got = {"CS0016": sorted(l for l, _, _ in res["CS0016"]), "CS0010": sorted(l for l, _, _ in res["CS0010"]),
+               "CS0014": sorted(re.sub(r"^`(.*)` needs.*$", r"\1", lab) for _, lab, _ in res["CS0014"])}
+    print("curve %s, %s %s" % (curve, rule or "", inp.get("statement") or inp.get("value") or ""))
+    print("implementation:", got)
+    print("documented    :", rep.get("spec"))
+    print("recorded      :", rep.get("impl"))
+    return 1 if got == rep.get("impl") else 0
